@@ -23,6 +23,7 @@ class VerusResult:
         self.raw_stderr = ""
         self.canary_ok = False
         self.assumption_scan = []
+        self.seed_used = None
 
 
 CANARY = "\nverus! {\nproof fn vc_canary_must_fail() ensures false {} " + rsx.MARK + "\n}\n"
@@ -42,7 +43,7 @@ def scan_assumptions(text):
     return found
 
 
-def run_unit(name, rlimit=None, extra_args=(), expanded_src=None, use_cache=True, timeout=None):
+def run_unit(name, rlimit=None, extra_args=(), expanded_src=None, use_cache=True, timeout=None, portfolio=None):
     u = unitgen.generate(name, expanded_src=expanded_src)
     r = VerusResult()
     r.unit = u
@@ -73,15 +74,62 @@ def run_unit(name, rlimit=None, extra_args=(), expanded_src=None, use_cache=True
         r.cached = True
         r.wall_s = d.get("wall_s", 0.0)
     else:
-        try:
-            p = subprocess.run(args, capture_output=True, text=True, timeout=(timeout or VERUS_TIMEOUT),
-                               cwd=os.path.join(BUILD, "units"))
-            out, err, rc = p.stdout, p.stderr, p.returncode
-        except subprocess.TimeoutExpired as ex:
-            r.undecided = "verus timeout after %ds (the unit verifies in a fraction of that on the unchanged tree: a proof that no longer goes through)" % (timeout or VERUS_TIMEOUT)
-            r.wall_s = time.time() - t0
-            return r
+        seeds = list(portfolio) if portfolio else [None]
+        procs = []
+        for sd in seeds:
+            a2 = list(args)
+            if sd is not None:
+                a2 += ["--smt-option", "smt.random_seed=%d" % sd, "--smt-option", "sat.random_seed=%d" % sd]
+            procs.append((sd, subprocess.Popen(a2, stdout=subprocess.PIPE, stderr=subprocess.PIPE, text=True,
+                                               cwd=os.path.join(BUILD, "units"))))
+        deadline = t0 + (timeout or VERUS_TIMEOUT)
+        finished = {}
+        winner = None
+        while time.time() < deadline and len(finished) < len(procs) and winner is None:
+            for sd, pr in procs:
+                if sd in finished:
+                    continue
+                if pr.poll() is not None:
+                    o, e = pr.communicate()
+                    finished[sd] = (o, e, pr.returncode)
+                    # success = exactly one error (the canary) and nothing else
+                    try:
+                        jo = json.loads(o[o.index('{'):])
+                        vr0 = jo.get("verification-results", {})
+                        if vr0.get("errors") == 1 and not vr0.get("encountered-vir-error") and "vc_canary_must_fail" in e:
+                            nerr = sum(1 for ln in e.split('\n') if ln.startswith('{') and '"level":"error"' in ln and 'aborting due to' not in ln)
+                            if nerr == 1:
+                                winner = sd
+                                break
+                    except Exception:
+                        pass
+            if winner is None:
+                time.sleep(0.2)
+        for sd, pr in procs:
+            if pr.poll() is None:
+                pr.kill()
+                try:
+                    pr.communicate(timeout=5)
+                except Exception:
+                    pass
         r.wall_s = time.time() - t0
+        if winner is not None:
+            out, err, rc = finished[winner]
+            r.seed_used = winner
+        elif finished:
+            # no success: prefer a run that produced definite failed obligations
+            pick = None
+            for sd, (o, e, c) in finished.items():
+                if '"level":"error"' in e and ("not satisfied" in e or "assertion failed" in e or "possible arithmetic" in e):
+                    pick = sd
+                    break
+            if pick is None:
+                pick = list(finished.keys())[0]
+            out, err, rc = finished[pick]
+            r.seed_used = pick
+        else:
+            r.undecided = "verus timeout after %ds (the unit verifies in a fraction of that on the unchanged tree: a proof that no longer goes through)" % (timeout or VERUS_TIMEOUT)
+            return r
         with open(cpath, "w") as f:
             json.dump({"out": out, "err": err, "rc": rc, "wall_s": r.wall_s}, f)
     r.raw_stderr = err
